@@ -882,6 +882,17 @@ M('C18', 't=0 operator applied under the flipped test with else (equivalent)',
             self.apply_operator_t0_to_psi()
 """, None, expect='silent')
 
+M('C14', 'update_imag advances the clock by the real delta_t (round-3 seed a)', TEBD,
+  """        self._update_index = None
+        self.evolved_time = self.evolved_time + N_steps * self._U_param['tau']
+        self.trunc_err = self.trunc_err + trunc_err  # not += : make a copy!
+        # (this is done to avoid problems of users storing self.trunc_err after each `update`)
+        if call_canonical_form:""", """        self._update_index = None
+        self.evolved_time = self.evolved_time + N_steps * self._U_param['delta_t']
+        self.trunc_err = self.trunc_err + trunc_err  # not += : make a copy!
+        # (this is done to avoid problems of users storing self.trunc_err after each `update`)
+        if call_canonical_form:""", 'ACCOUNT-evolved_time')
+
 # ---------------------------------------------------------------- C16 / C19
 M('C16', 'GMRES restart: relative residual norm used for normalisation (round-3 seed b)', KRY,
   """        self.total_error.append([npc.norm(self.rs[-1]) / self.b_norm])
